@@ -58,7 +58,7 @@ def obligations(tier):
 
 MANIFEST = {
     "text": "For every pair of data types, payload sizes 0..65535 and prior sequence counters, and every sequence of <=3 steps mixing client traffic, acknowledgements, failure notices and periodic manager messages, "
-            "each recipient's byte stream produced by the real manager is header+exactly-declared-payload frames, numbered previous+1 without gaps, with client frames in sending order (hence the same relative order at every recipient). "
+            "(also with a recipient not ready to accept data during some of the steps) each recipient's byte stream produced by the real manager is header+exactly-declared-payload frames, numbered previous+1 without gaps, with client frames in sending order (hence the same relative order at every recipient). "
             "CrossHair exhausts each shard.",
     "note": "recorders for sockets; ctypes shadows validated; TCP in-order assumption",
     "design_ref": "DESIGN.md 4.5",
